@@ -253,9 +253,11 @@ let cmd_lookup (toks : string list) : string =
            let (r, _) = run (read_sample m t k) (stream_at data N0) in
            "{\"k\":" ^ jn k ^ ",\"off\":" ^ jres jn (sample_offset m t k)
            ^ ",\"rs\":" ^ jres (jo jsample) r
-           ^ ",\"spec\":{\"off\":" ^ jo jn (spec_offset tb k) ^ ",\"size\":" ^ jo jn (spec_size tb k)
-           ^ ",\"delta\":" ^ jo jn (spec_delta tb k) ^ ",\"start\":" ^ jn (spec_start tb k)
-           ^ ",\"cts\":" ^ jo jz (spec_cts tb k) ^ ",\"sync\":" ^ jb (spec_sync tb k) ^ "}}") ids ^ "}")
+           ^ (if int_of_n k <= int_of_n tb.t_stsz_count + 3 then
+                ",\"spec\":{\"off\":" ^ jo jn (spec_offset tb k) ^ ",\"size\":" ^ jo jn (spec_size tb k)
+                ^ ",\"delta\":" ^ jo jn (spec_delta tb k) ^ ",\"start\":" ^ jn (spec_start tb k)
+                ^ ",\"cts\":" ^ jo jz (spec_cts tb k) ^ ",\"sync\":" ^ jb (spec_sync tb k) ^ "}}"
+              else ",\"spec\":null}")) ids ^ "}")
   | _ -> "EXN lookup args"
 
 (* ---------- commands ---------- *)
